@@ -11,6 +11,7 @@ mod kvmodel;
 mod listeners;
 mod pairs;
 mod select;
+mod server;
 mod sim;
 mod wire;
 
@@ -45,6 +46,7 @@ fn main() {
         "C15" => finish(listeners::check(&args)),
         "C17" => finish(select::check(&args)),
         "C18" => finish(catchup::check(&args)),
+        "C19" => finish(server::check(&args)),
         "C09" => finish(hostile::check(&args)),
         "C07" => finish(wire::check_c07(&args)),
         "C08" => finish(wire::check_c08(&args)),
